@@ -22,6 +22,12 @@ TRAMP = r'''
 #[verifier::external_body] pub fn usize_to_isize(n: usize) -> (r: Result<isize, std::num::TryFromIntError>)
     ensures n <= isize::MAX ==> r is Ok && r->Ok_0 == n, n > isize::MAX ==> r is Err { TryInto::<isize>::try_into(n) }
 #[verifier::external_body] pub fn cel_peq(a: &CelValue, b: &CelValue) -> (r: bool) ensures r == peq(*a, *b) { unimplemented!() }
+// `==` / `!=` on values written out as operators somewhere else than the membership test: NO contract (an edit that starts using them is decided
+// against the postcondition instead of failing to type-check)
+impl PartialEq for CelValue { #[verifier::external_body] fn eq(&self, other: &Self) -> bool { unimplemented!() } }
+pub assume_specification<T, F: FnOnce(T) -> bool>[ Option::<T>::is_some_and ](o: Option<T>, f: F) -> (r: bool)
+    requires o is Some ==> call_requires(f, (o->Some_0,)),
+    ensures o is None ==> !r, o is Some ==> call_ensures(f, (o->Some_0,), r);       // std: None -> false, Some(x) -> f(x)
 #[verifier::external_body] pub fn string_contains(s: &String, r: &String) -> (o: bool) ensures o == str_contains(s@, r@) { s.contains(r.as_str()) }
 #[verifier::external_body] pub fn map_get<'a>(m: &'a HashMap<String, CelValue>, k: &str) -> (r: Option<&'a CelValue>)
     ensures (r is Some) == (map_lookup(m@, k@) is Some), r is Some ==> *r->Some_0 == map_lookup(m@, k@)->Some_0 { m.get(k) }
